@@ -17,7 +17,9 @@
 //
 // Part 3 (end to end): real server, raw protocol peers; after each broadcast a direct
 // fence event is emitted to every client socket, so "absent before the fence" on a FIFO
-// connection is a definite non-delivery.
+// connection is a definite non-delivery. After every client disconnect the server socket
+// must be in no room and listed nowhere. 3b: Join calls racing with the disconnect of the
+// same socket; once every call has returned the socket must be in no room.
 package main
 
 import (
@@ -343,7 +345,8 @@ func main() {
 		"1b: seeded random histories (<= 40 ops, 4 socket slots x 4 rooms, disconnect + reconnect with fresh ids); distinct = multiset of operation kinds of the history. " +
 		"2: goroutines mutating membership while others broadcast, judged per (broadcast, socket) by interval semantics; distinct = overlap pattern (|T|,|E|, #must, #must-not, #undetermined, #undetermined delivered). " +
 		"2b: per-socket-id linearizability (porcupine) of AddAll/Delete/DeleteAll/SocketRooms/Sockets; distinct = history shape (keys, goroutines, op-kind multiset). " +
-		"3: real server + raw peers, broadcast then direct fence on every connection; distinct = (recovery, API variant, |T|, |E|, #recipients)")
+		"3: real server + raw peers, broadcast then direct fence on every connection; distinct = (recovery, API variant, |T|, |E|, #recipients/#clients). " +
+		"3b: N goroutines calling ServerSocket.Join while the same socket is disconnected, checked once every call has returned; distinct = number of joiners")
 	run.Assume(
 		"the harness' fake socket does what serverSocket does towards the adapter (Join=AddAll, Leave=Delete, Disconnect=DeleteAll then store removal, Broadcast()=Except(own id)); part 3 covers the real serverSocket",
 		"every socket is in the room named by its own id and histories never make it leave that room",
@@ -353,17 +356,17 @@ func main() {
 	)
 
 	if run.SubMode == "race" {
-		guarded(run, "race-1b", 14*time.Minute, func() { part1b(run, 2500) })
-		guarded(run, "race-2", 14*time.Minute, func() { part2(run, 400) })
-		guarded(run, "race-2b", 14*time.Minute, func() { part2b(run, 250) })
+		guarded(run, "race-1b", 14*time.Minute, func() { part1b(run, 10000) })
+		guarded(run, "race-2", 14*time.Minute, func() { part2(run, 3000) })
+		guarded(run, "race-2b", 14*time.Minute, func() { part2b(run, 2000) })
 		run.Finish()
 	}
 
 	limit := time.Duration(run.Pick(3, 30)) * time.Minute
 	guarded(run, "1a", limit, func() { part1a(run); run.Exhaustive(true) })
 	guarded(run, "1b", limit, func() { part1b(run, run.Pick(3000, 60000)) })
-	guarded(run, "2", limit, func() { part2(run, run.Pick(1500, 12000)) })
-	guarded(run, "2b", limit, func() { part2b(run, run.Pick(800, 8000)) })
+	guarded(run, "2", limit, func() { part2(run, run.Pick(3000, 40000)) })
+	guarded(run, "2b", limit, func() { part2b(run, run.Pick(1500, 20000)) })
 	guarded(run, "3", limit, func() {
 		for _, recovery := range []bool{false, true} {
 			endToEnd(run, recovery, run.Pick(150, 3000))
